@@ -557,6 +557,41 @@ class Hist(Scenario):
             self.do_edit(author=rng.choice(self.sessions), f=rng.choice(others), kinds=["ins"])
         self.commit_all("after abandoned pick")
 
+    def op_cherry_pick_concluded_by_commit(self):
+        """`git cherry-pick C1 C2` stops on a conflict in a file only people touched; the person resolves it and concludes the pick
+        with a plain `git commit` (so the first rewritten commit gets its note from the ordinary post-commit path), then
+        `git cherry-pick --continue` picks the rest and the cherry-pick hooks remap the notes of the whole sequence."""
+        rng = self.rng
+        tr = [x for x in self.files if x in self.tracked() and self.read(x)]
+        if len(tr) < 2:
+            return "skipped"
+        base_branch = self.current_branch() or "main"
+        src = self.new_branch_name("cc")
+        hf = rng.choice(tr)
+        others = [x for x in tr if x != hf]
+        hl = self.read(hf)
+        self.g("checkout", "-q", "-b", src)
+        l2 = list(hl); l2[0] = self.fresh("human", hostile=False); self.write(hf, l2)
+        self.do_edit(author=rng.choice(self.sessions), f=rng.choice(others), kinds=["ins"])
+        self.commit_all("cc1: AI edit + a person's change of the first line of another file")
+        self.do_edit(author=rng.choice(self.sessions), f=rng.choice(others), kinds=["ins"])
+        self.commit_all("cc2: AI edit")
+        self.g("checkout", "-q", base_branch)
+        l3 = list(hl); l3[0] = self.fresh("human", hostile=False); self.write(hf, l3)
+        self.commit_all("upstream changes the same first line")
+        self.g("cherry-pick", src + "~1", src)
+        self.ops.append("cherry-pick:conclude-by-commit")
+        if "CHERRY_PICK_HEAD" not in self.in_progress():
+            return "no-conflict"
+        self.resolve_conflicts(how=rng.choice(["ours", "theirs"]))
+        self.g("commit", "-q", "--no-edit")
+        if self.in_progress():
+            self.g("-c", "core.editor=true", "cherry-pick", "--continue")
+        if self.in_progress():
+            self.g("cherry-pick", "--abort")
+            self.inconclusive = "could not finish the cherry-pick sequence"
+        return "done"
+
     def op_squash_merge(self):
         rng = self.rng
         base_branch = self.current_branch() or "main"
